@@ -113,65 +113,8 @@ func c07Naming(c *core.Ctx, r *core.Report) {
 	typeIdTable(c, r, "C07.R3")
 
 	// (ii) GetMetaOrRegister stores a definition whose Name() is the key
-	sync2Map := c.Named("util/sync2", "Map")
-	lsf := c.DeclaredMethod(sync2Map, "LoadOrStoreFn")
+	definitionNameRules(c, r, "C07.R3")
 	ro := c.Roles()
-	meta := c.Named("component_definition", "Meta")
-	nameM := c.DeclaredMethod(meta, "Name")
-	for _, T := range c.Implementors(c.Iface("container", "DefinitionRegistry")) {
-		gor := c.DeclaredMethod(T, "GetMetaOrRegister")
-		if gor == nil || lsf == nil || nameM == nil || ro.NewMeta == nil {
-			r.Undecided("C07.R3", "role:GetMetaOrRegister", "", "GetMetaOrRegister / LoadOrStoreFn / Meta.Name / NewMeta not found")
-			continue
-		}
-		bad := ""
-		runs := 0
-		for _, key := range []string{"pkg/T", "custom", "foreign"} {
-			for _, alias := range []string{"", "custom"} {
-				// feasible keys: the singleton registry's key is the custom name when there is one (R3.i, R3.iii)
-				if (alias != "" && key == "pkg/T") || (alias == "" && key == "custom") {
-					continue
-				}
-				var storedKey absint.Value
-				var stored *absint.Tok
-				build := func() (absint.Oracle, []absint.Value, []absint.Value) {
-					storedKey, stored = nil, nil
-					t := newTbl(c)
-					t.callee[ro.NewMeta] = func(ip *absint.Interp, a []absint.Value) absint.Value {
-						m := absint.NewTok("newmeta", "meta")
-						m.Fields["name"], m.Fields["alias"] = absint.Str("pkg/T"), absint.Str(alias)
-						return m
-					}
-					t.callee[lsf] = func(ip *absint.Interp, a []absint.Value) absint.Value {
-						storedKey = a[1]
-						v := ip.CallValue(a[2])
-						stored, _ = v.(*absint.Tok)
-						return absint.Tuple{v, absint.Bool(false)}
-					}
-					return t, []absint.Value{absint.NewTok("reg", "registry"), absint.Str(key), absint.NewTok("component", "component")}, nil
-				}
-				check := func(ip *absint.Interp, out absint.Outcome) {
-					if out.Panic != nil || stored == nil || storedKey != absint.Value(absint.Str(key)) || len(out.Ret) != 1 || out.Ret[0] != absint.Value(stored) {
-						bad = fmt.Sprintf("key=%q alias=%q: not stored under the key / not returned: %s", key, alias, showOutcome(out))
-						return
-					}
-					// Name() of the stored definition
-					ip2 := absint.New(newTbl(c))
-					ip2.IsLog, ip2.InScope = core.IsLogCall, c.InScope
-					o2 := ip2.Run(nameM, []absint.Value{stored}, nil)
-					if o2.Undecided != nil || o2.Panic != nil || len(o2.Ret) != 1 || o2.Ret[0] != absint.Value(absint.Str(key)) {
-						bad = fmt.Sprintf("key=%q default=pkg/T alias=%q: stored definition answers Name()=%s", key, alias, showOutcome(o2))
-					}
-				}
-				k, u := runTable(c, gor, build, check)
-				runs += k
-				if u != "" {
-					bad = "left the model: " + u
-				}
-			}
-		}
-		r.Check(bad == "", "C07.R3", "definition-name@"+core.FnName(gor), c.FnPos(gor), fmt.Sprintf("the definition registered under a key answers Name()==key whatever its default and custom names are (%d abstract runs) %s", runs, bad))
-	}
 
 	// (iii) the scanner is given the singleton registry's key: the preparation table's 'recorded' row (each fetched
 	// singleton is in the component map under the very name it was fetched by)
@@ -469,4 +412,69 @@ func typeIdTable(c *core.Ctx, r *core.Report, rule string) {
 		}
 	}
 	r.Check(bad == "", rule, "type-id@"+core.FnName(fn), c.FnPos(fn), fmt.Sprintf("the default name of a type is <package path>/<type name>, whatever was asked before (%d abstract runs) %s", runs, bad))
+}
+
+// definitionNameRules: the definition GetMetaOrRegister keeps under a key answers to that key (it is stored under the
+// name the singleton registry handed out, and renamed to it), whatever its default and custom names are.
+func definitionNameRules(c *core.Ctx, r *core.Report, rule string) {
+	// (ii) GetMetaOrRegister stores a definition whose Name() is the key
+	sync2Map := c.Named("util/sync2", "Map")
+	lsf := c.DeclaredMethod(sync2Map, "LoadOrStoreFn")
+	ro := c.Roles()
+	meta := c.Named("component_definition", "Meta")
+	nameM := c.DeclaredMethod(meta, "Name")
+	for _, T := range c.Implementors(c.Iface("container", "DefinitionRegistry")) {
+		gor := c.DeclaredMethod(T, "GetMetaOrRegister")
+		if gor == nil || lsf == nil || nameM == nil || ro.NewMeta == nil {
+			r.Undecided(rule, "role:GetMetaOrRegister", "", "GetMetaOrRegister / LoadOrStoreFn / Meta.Name / NewMeta not found")
+			continue
+		}
+		bad := ""
+		runs := 0
+		for _, key := range []string{"pkg/T", "custom", "foreign"} {
+			for _, alias := range []string{"", "custom"} {
+				// feasible keys: the singleton registry's key is the custom name when there is one (R3.i, R3.iii)
+				if (alias != "" && key == "pkg/T") || (alias == "" && key == "custom") {
+					continue
+				}
+				var storedKey absint.Value
+				var stored *absint.Tok
+				build := func() (absint.Oracle, []absint.Value, []absint.Value) {
+					storedKey, stored = nil, nil
+					t := newTbl(c)
+					t.callee[ro.NewMeta] = func(ip *absint.Interp, a []absint.Value) absint.Value {
+						m := absint.NewTok("newmeta", "meta")
+						m.Fields["name"], m.Fields["alias"] = absint.Str("pkg/T"), absint.Str(alias)
+						return m
+					}
+					t.callee[lsf] = func(ip *absint.Interp, a []absint.Value) absint.Value {
+						storedKey = a[1]
+						v := ip.CallValue(a[2])
+						stored, _ = v.(*absint.Tok)
+						return absint.Tuple{v, absint.Bool(false)}
+					}
+					return t, []absint.Value{absint.NewTok("reg", "registry"), absint.Str(key), absint.NewTok("component", "component")}, nil
+				}
+				check := func(ip *absint.Interp, out absint.Outcome) {
+					if out.Panic != nil || stored == nil || storedKey != absint.Value(absint.Str(key)) || len(out.Ret) != 1 || out.Ret[0] != absint.Value(stored) {
+						bad = fmt.Sprintf("key=%q alias=%q: not stored under the key / not returned: %s", key, alias, showOutcome(out))
+						return
+					}
+					// Name() of the stored definition
+					ip2 := absint.New(newTbl(c))
+					ip2.IsLog, ip2.InScope = core.IsLogCall, c.InScope
+					o2 := ip2.Run(nameM, []absint.Value{stored}, nil)
+					if o2.Undecided != nil || o2.Panic != nil || len(o2.Ret) != 1 || o2.Ret[0] != absint.Value(absint.Str(key)) {
+						bad = fmt.Sprintf("key=%q default=pkg/T alias=%q: stored definition answers Name()=%s", key, alias, showOutcome(o2))
+					}
+				}
+				k, u := runTable(c, gor, build, check)
+				runs += k
+				if u != "" {
+					bad = "left the model: " + u
+				}
+			}
+		}
+		r.Check(bad == "", rule, "definition-name@"+core.FnName(gor), c.FnPos(gor), fmt.Sprintf("the definition registered under a key answers Name()==key whatever its default and custom names are (%d abstract runs) %s", runs, bad))
+	}
 }
